@@ -135,12 +135,13 @@ class IOBase(Communicator):
         self._lock = threading.RLock()
 
     def connectStart(self):
-        if not self.is_connected:
-            uri = self.uri
-            self._conn = AsynConn(uri, self._eol_read,
-                                  default_settings=self.default_settings)
-            self.is_connected = True
-            self.checkHWIdent()
+        with self._lock:  # do not interfere with a disconnect detected by an other thread in communicate
+            if not self.is_connected:
+                uri = self.uri
+                self._conn = AsynConn(uri, self._eol_read,
+                                      default_settings=self.default_settings)
+                self.is_connected = True
+                self.checkHWIdent()
 
     def checkHWIdent(self):
         raise NotImplementedError
